@@ -172,6 +172,39 @@ def gen_length_boundaries(rng, fmt, big_containers=False):
     return ls
 
 
+def strip_all_tags(v):
+    if isinstance(v, Tagged):
+        return strip_all_tags(v.value)
+    if isinstance(v, list):
+        return [strip_all_tags(x) for x in v]
+    if isinstance(v, Obj):
+        return Obj([(k, strip_all_tags(x)) for k, x in v.members])
+    return v
+
+
+def gen_core_lines(rng, n):
+    """untagged values, packing off: the real encoder's bytes must equal the Lean encoder model's bytes"""
+    ls = []
+    for _ in range(n):
+        v = strip_all_tags(gen_value(rng, rng.randint(0, 3), "cbor", []))
+        kind = "j" if rng.random() < 0.6 else "o"
+        if kind == "j":
+            v = wire.sort_keys(v)
+        ls.append(enc_line("cbor", kind, "p0", v))
+    for b in F64 + [0x3690000000000000, 0x36a8000000000000, 0x380fffffe0000000, 0x3800000000000000, 0x37f0000000000000, 0x47f0000000000000, 0x47effffff0000000]:
+        ls.append(enc_line("cbor", "j", "p0", ("d", b)))
+    return ls
+
+
+def model_line(line):
+    t = line.split()
+    return "bin menc cbor " + " ".join(t[5:])
+
+
+def compare_bytes(line, io, mo):
+    return io.split(" | ")[0] == mo
+
+
 def oracle(line, impl, model, ref=None):
     t = line.split()
     fmt, kind = t[2], t[3]
@@ -219,6 +252,8 @@ def nontrivial(line, impl):
 def streams(ctx, rng, scale):
     lw = vlib.witness_lines(PROP)
     ctx.correspond("finding-witnesses", HARNESS, lw, oracle, nontrivial, want_model=False)
+    lcore = gen_core_lines(rng, 1500 * scale)
+    ctx.correspond("cbor-encoder-model", HARNESS, lcore, oracle, nontrivial, compare=compare_bytes, model_lines=[model_line(l) for l in lcore])
     lsr = gen_stringref_docs(rng, 40 * scale)
     ctx.correspond("cbor-stringref", HARNESS, lsr, oracle, nontrivial, want_model=False)
     for fmt in ("cbor", "msgpack", "ubjson", "bson"):
